@@ -368,6 +368,11 @@ func (c *Conv) applyConv1D(x, kernel tensor.Tensor) (tensor.Tensor, error) {
 
 			subKernel := subKernelView.Materialize()
 
+			// Slicing drops axes of extent 1 (a single channel, a kernel extent of 1): restore them.
+			if err := subKernel.Reshape(kernel.Shape()[1:]...); err != nil {
+				return nil, err
+			}
+
 			for h := 0; h < paddedX.Shape()[2]; h += strideSize {
 				dimHOutputIdx := h / strideSize
 				if dimHOutputIdx >= outputHDim {
@@ -433,6 +438,11 @@ func (c *Conv) applyConv2D(x, kernel tensor.Tensor) (tensor.Tensor, error) {
 			}
 
 			subKernel := subKernelView.Materialize()
+
+			// Slicing drops axes of extent 1 (a single channel, a kernel extent of 1): restore them.
+			if err := subKernel.Reshape(kernel.Shape()[1:]...); err != nil {
+				return nil, err
+			}
 
 			// Loop over all 2D subImages of the input image and compute the convolution
 			// for that subImage. Store the result at the right place in the output tensor.
@@ -566,7 +576,15 @@ func (c *Conv) getSubImage(x tensor.Tensor, batchIdx int, startSpatialCoords ...
 		return nil, err
 	}
 
-	return subImage.Materialize(), nil
+	// Slicing drops axes of extent 1 (a single channel, a kernel extent of 1): restore them.
+	subImageShape := append([]int{x.Shape()[1]}, c.kernelShape...)
+
+	materialized := subImage.Materialize()
+	if err := materialized.Reshape(subImageShape...); err != nil {
+		return nil, err
+	}
+
+	return materialized, nil
 }
 
 // addBias adds a bias to the output of the convolution. It reshapes the
